@@ -1,4 +1,5 @@
 import Tumfl.Theory.EmitComments
+import Tumfl.Theory.ParserWF
 /-!
 # C13  Statement-leading comments survive formatting exactly once (emission stage)
 
@@ -25,5 +26,15 @@ theorem C13_placement (sty : Style) (first : Bool) (s : Stmt) (rest : List Stmt)
       (if sty.includeComments then (stmtComments s).flatMap (formatComment sty) else []) ++
       stmtGuard first (visitStmt sty s) ++ visitStmt sty s ++ [S .statement] ++ visitStmts sty false rest :=
   visitStmts_placement sty first s rest
+
+/-- for everything the parser builds the hypothesis holds: parse, then emit, keeps exactly the statement comments -/
+theorem C13_parsed (src : List Char) (b : Block) (hs : List Hint) (h : parseText src = .ok (b, hs)) (sty : Style) :
+    (emit sty b).filter isCommentPiece =
+      if sty.includeComments then (commentsBlock b).map (fun c => (formatComment sty c).head!) else [] := by
+  have hwf : TreeWF b := parseText_wf src b hs h
+  by_cases hc : sty.includeComments = true
+  · simp [hc, emit_comments_on sty hc b hwf]
+  · have hc' : sty.includeComments = false := by simpa using hc
+    simp [hc', emit_comments_off sty hc' b hwf]
 
 end Tumfl.Props
